@@ -131,6 +131,25 @@ def get_function(qualname):
     return mi, q, mi.functions[q]
 
 
+TRANSPARENT_DECORATORS = {"property", "classmethod", "staticmethod", "abstractmethod", "abc.abstractmethod", "hybridmethod",
+                          "classproperty", "overload", "typing.overload", "final", "typing.final", "uninterpreted"}
+
+
+def opaque_decorators(fn_node):
+    """Decorators that may change what calling the function means (caches, wrappers, registrations ...).  Only the
+    binding / declarative ones listed above (and `<name>.instancemethod` / `.setter` / `.getter`) are transparent: a
+    function carrying any other decorator is outside the verified subset - its body is not what a call executes."""
+    out = []
+    for d in getattr(fn_node, "decorator_list", []):
+        t = ast.unparse(d.func if isinstance(d, ast.Call) else d)
+        if t in TRANSPARENT_DECORATORS:
+            continue
+        if isinstance(d, ast.Attribute) and d.attr in ("instancemethod", "setter", "getter"):
+            continue
+        out.append(ast.unparse(d))
+    return out
+
+
 def loops_in_order(fn_node):
     """Loop nodes of the function in source order (nested included, nested defs excluded)."""
     out = []
